@@ -108,12 +108,17 @@ def F_eval(f, m):
         return sum(v for a in m.agents if type(v := getattr(a, name, None)) is int)
     if k == "get":
         return getattr(m, f"x{f[1]}", None)
+    if k == "req":
+        return getattr(m, f"x{f[1]}")  # AttributeError when the attribute is missing
     raise BadOp(f)
 
 
 def G_eval(g, k, d, m):
     if g[0] == "lin":
         v = getattr(m, f"x{g[1]}", None)
+        return k * v + d if type(v) is int else None
+    if g[0] == "lreq":
+        v = getattr(m, f"x{g[1]}")
         return k * v + d if type(v) is int else None
     if g[0] == "cnt":
         return k * len(m.agents) + d
@@ -124,6 +129,8 @@ def A_eval(f, a):
     k = f[0]
     if k == "get":
         return getattr(a, f"v{f[1]}", None)
+    if k == "req":
+        return getattr(a, f"v{f[1]}")
     if k == "id":
         return a.unique_id
     if k == "twice":
@@ -138,15 +145,18 @@ def AG_eval(g, a, k, d):
     if g[0] == "lin":
         v = getattr(a, f"v{g[1]}", None)
         return k * v + d if type(v) is int else None
+    if g[0] == "lreq":
+        v = getattr(a, f"v{g[1]}")
+        return k * v + d if type(v) is int else None
     raise BadOp(g)
 
 
 def check_fn(kind, f):
     ok = {
-        "F": {"count": 1, "steps": 1, "sum": 2, "get": 2},
-        "G": {"lin": 2, "cnt": 1},
-        "A": {"get": 2, "id": 1, "twice": 2, "steps": 1},
-        "AG": {"lin": 2},
+        "F": {"count": 1, "steps": 1, "sum": 2, "get": 2, "req": 2},
+        "G": {"lin": 2, "cnt": 1, "lreq": 2},
+        "A": {"get": 2, "id": 1, "twice": 2, "steps": 1, "req": 2},
+        "AG": {"lin": 2, "lreq": 2},
     }[kind]
     if not f or f[0] not in ok or len(f) != ok[f[0]]:
         raise BadOp(f)
@@ -154,12 +164,12 @@ def check_fn(kind, f):
 
 
 def parse_rep(level, ws):
-    """level 'm' or 'a' -> ('attr', a) | ('fn', f) | ('meth', f) | ('args', k, d, g)"""
+    """level 'm' or 'a' -> ('attr', a) | ('fn', f) | ('part', f) (model level only) | ('meth', f) | ('args', k, d, g)"""
     if not ws:
         raise BadOp(ws)
     if ws[0] == "attr" and len(ws) == 2:
         return ("attr", to_nat(ws[1]))
-    if ws[0] in ("fn", "meth"):
+    if ws[0] in ("fn", "meth") or (ws[0] == "part" and level == "m"):
         return (ws[0], check_fn("F" if level == "m" else "A", ws[1:]))
     if ws[0] == "args" and len(ws) >= 4:
         return ("args", to_int(ws[1]), to_int(ws[2]), check_fn("G" if level == "m" else "AG", ws[3:]))
@@ -174,7 +184,7 @@ def direct_m(rep, m):
     """what evaluating the reporter directly on the model yields"""
     if rep[0] == "attr":
         return getattr(m, f"x{rep[1]}", None)
-    if rep[0] in ("fn", "meth"):
+    if rep[0] in ("fn", "part", "meth"):
         return F_eval(rep[1], m)
     return G_eval(rep[3], rep[1], rep[2], m)
 
@@ -209,7 +219,10 @@ def mk_mrep(rep, model, idx):
                 return F_eval(f, m)
 
             return plain
-        return functools.partial(F_eval, f)
+        return lambda m, f_=f: F_eval(f_, m)
+    if rep[0] == "part":
+        # not a types.LambdaType: the validation of the first collect does not call it
+        return functools.partial(F_eval, rep[1])
     if rep[0] == "meth":
         f = rep[1]
         return types.MethodType(lambda self: F_eval(f, self), model)
@@ -254,10 +267,10 @@ class Spec:
                 if w == "-":
                     ps.append(None)
                 else:
-                    p = to_nat(w)
-                    if p >= i:
+                    bases = [to_nat(x) for x in w.split("+")]
+                    if any(p >= i for p in bases) or len(set(bases)) != len(bases):
                         raise BadOp(ws)
-                    ps.append(p)
+                    ps.append(bases[0] if len(bases) == 1 else tuple(bases))  # several bases: multiple inheritance
             self.parents = ps
         elif k == "mrep":
             self.mreps.append(parse_rep("m", ws[1:]))
@@ -279,6 +292,21 @@ class Spec:
 
 
 DEF_WORDS = ("classes", "mrep", "arep", "trep", "table")
+
+
+RAISED = "!raised"
+
+
+def try_direct(thunk):
+    try:
+        return thunk()
+    except AttributeError:
+        return RAISED
+
+
+def silent(c):
+    """a collect about which C12 says nothing: a reporter raises when evaluated directly and the call did raise"""
+    return c["outcome"] != "ok" and c.get("phase") is not None
 
 
 class NotAnAgent:
@@ -307,6 +335,45 @@ class _Backed:
             raise AttributeError(self.key) from None
 
 
+class _DrawnShuffle:
+    """stands in for the AgentSet's random source: `shuffle` draws a fixed permutation"""
+
+    def __init__(self, kind):
+        self.kind = kind
+
+    def shuffle(self, lst):
+        if self.kind == "rev":
+            lst.reverse()
+        elif lst:
+            lst.append(lst.pop(0))
+
+
+def _int_key(a):
+    def key(agent):
+        v = getattr(agent, f"v{a}", None)
+        return v if type(v) is int else 0
+
+    return key
+
+
+def reorder_agents(m, ws):
+    """in-place reorderings of model.agents through the public AgentSet calls"""
+    kind, ags = ws[1], m.agents
+    if kind in ("rev", "rot") and len(ws) == 2:
+        saved = ags.random
+        ags.random = _DrawnShuffle(kind)
+        try:
+            ags.shuffle(inplace=True)
+        finally:
+            ags.random = saved
+    elif kind in ("ida", "idd") and len(ws) == 2:
+        ags.sort("unique_id", ascending=(kind == "ida"), inplace=True)
+    elif kind in ("ata", "atd") and len(ws) == 3:
+        ags.sort(_int_key(to_nat(ws[2])), ascending=(kind == "ata"), inplace=True)
+    else:
+        raise BadOp(ws)
+
+
 class World:
     """a real mesa Model + DataCollector built from a Spec; executes ops; logs what each collect saw"""
 
@@ -319,7 +386,11 @@ class World:
         base.v1 = _Backed("v1")
         self.classes = []
         for i, p in enumerate(spec.parents):
-            self.classes.append(type(f"C{i}", (base if p is None else self.classes[p],), {}))
+            bases = (base,) if p is None else tuple(self.classes[q] for q in (p if isinstance(p, tuple) else (p,)))
+            try:
+                self.classes.append(type(f"C{i}", bases, {}))
+            except TypeError:
+                raise BadOp(f"no consistent MRO for class {i}") from None
         self.other = {}
         mr = {f"m{i}": mk_mrep(r, model, i) for i, r in enumerate(spec.mreps)}
         ar = {f"a{i}": mk_arep(r, base, f"a{i}") for i, r in enumerate(spec.areps)}
@@ -333,6 +404,7 @@ class World:
         self.dc = DataCollector(model_reporters=mr or None, agent_reporters=ar or None,
                                 agenttype_reporters=tr or None, tables=tabs or None)
         self.handles = {}
+        self.reordered = False  # model.agents was reordered in place at some point
         self.collects = []  # what every collect() call saw, evaluated directly
         self.table_log = []  # (table, row dict or None if rejected, kind)
 
@@ -347,18 +419,31 @@ class World:
         return self.classes.index(type(a))
 
     def snapshot(self):
+        """what evaluating every reporter directly yields at this moment (RAISED where that raises)"""
         m = self.model
         sp = self.spec
-        return {
+        snap = {
             "step": m.steps,
-            "m": [copy.deepcopy(direct_m(r, m)) for r in sp.mreps],
-            "agents": [(a.unique_id, self.type_index(a), [direct_a(r, a) for r in sp.areps]) for a in m.agents],
+            "reordered": self.reordered,
+            "m": [try_direct(lambda r=r: copy.deepcopy(direct_m(r, m))) for r in sp.mreps],
+            "agents": [(a.unique_id, self.type_index(a), [try_direct(lambda r=r, a=a: direct_a(r, a)) for r in sp.areps])
+                       for a in m.agents],
             "types": {
-                T: [(a.unique_id, self.type_index(a), [direct_a(r, a) for r in reps])
+                T: [(a.unique_id, self.type_index(a), [try_direct(lambda r=r, a=a: direct_a(r, a)) for r in reps])
                     for a in m.agents if T < len(self.classes) and isinstance(a, self.classes[T])]
                 for T, reps in sp.treps
             },
         }
+        # the first phase of a collect in which a reporter raises when evaluated directly (C12 is silent about such a collect)
+        if any(v is RAISED for v in snap["m"]):
+            snap["phase"] = "m"
+        elif any(v is RAISED for _i, _t, vs in snap["agents"] for v in vs):
+            snap["phase"] = "a"
+        elif any(v is RAISED for rows in snap["types"].values() for _i, _t, vs in rows for v in vs):
+            snap["phase"] = "t"
+        else:
+            snap["phase"] = None
+        return snap
 
     def op(self, ws):
         """execute one op on the implementation; returns the canonical observation"""
@@ -404,6 +489,9 @@ class World:
                 except AttributeError:
                     snap["outcome"] = "err Attr"
                     raise
+                except RuntimeError:
+                    snap["outcome"] = "err Runtime"
+                    raise
                 except ValueError:
                     snap["outcome"] = "err Value"
                     raise
@@ -418,6 +506,9 @@ class World:
             elif k == "stop" and len(ws) == 2:
                 if m.steps >= to_nat(ws[1]):
                     m.running = False
+            elif k == "reorder" and len(ws) in (2, 3):
+                reorder_agents(m, ws)
+                self.reordered = True
             else:
                 raise BadOp(ws)
         except BadOp:
@@ -428,6 +519,8 @@ class World:
             return "err Key"
         except ValueError:
             return "err Value"
+        except RuntimeError:
+            return "err Runtime"
         except Exception as e:  # DataCollector raises bare Exceptions for tables
             if type(e) is Exception and "Table does not exist" in str(e):
                 return "err Unknown"
@@ -581,6 +674,20 @@ def type_clause_applies(spec, collects, T):
     return not (direct and sub)
 
 
+def canon_within_steps(words, loose):
+    """a frame line `ok cols=n step/id:vals …` with the rows of the steps in `loose` sorted (steps stay in place)"""
+    head, rows = words[:2], words[2:]
+    out, i = [], 0
+    while i < len(rows):
+        st = rows[i].split("/")[0]
+        j = i
+        while j < len(rows) and rows[j].split("/")[0] == st:
+            j += 1
+        out += sorted(rows[i:j]) if st.isdigit() and int(st) in loose else rows[i:j]
+        i = j
+    return " ".join(head + out)
+
+
 def oracle_collect(sc, obs):
     """C12 (and the table clause of C18) evaluated on what the implementation showed"""
     tr = sc.meta.get("trace")
@@ -593,6 +700,9 @@ def oracle_collect(sc, obs):
             continue
         _, ws, o, ncol, ntab = ev
         seen = collects[:ncol]
+        if ws[0] != "tab" and any(silent(c) for c in seen):
+            # a reporter raised inside a collect: what that call left behind is outside the property (the model follows the code)
+            continue
         # a collect whose model-reporter validation failed stored nothing; one that failed in the
         # agent-type phase (unknown type) had already stored model and agent values
         stored = [c for c in seen if c["outcome"] in ("ok", "err Value")]
@@ -622,7 +732,7 @@ def oracle_collect(sc, obs):
             elif not type_clause_applies(spec, seen, T):
                 continue
             else:
-                by_step = {}
+                by_step, loose = {}, set()
                 for c in seen:
                     if c["outcome"] != "ok":
                         # the agent-type phase may have been cut short; the property is silent
@@ -631,9 +741,19 @@ def oracle_collect(sc, obs):
                             by_step[c["step"]] = None
                         continue
                     by_step[c["step"]] = [f"{c['step']}/{i}:{fmt_vals(v)}" for i, _t, v in c["types"][T]]
+                    if c.get("reordered"):
+                        # one row per agent of the class; the property does not say whether a type's rows follow
+                        # model.agents or agents_by_type once the two orders differ (the model does: creation order
+                        # for a class with direct instances, model.agents order for a base class)
+                        loose.add(c["step"])
                 if any(v is None for v in by_step.values()):
                     continue
                 want = " ".join([f"ok cols={len(reps)}"] + [r for rows in by_step.values() for r in rows])
+                if loose and o != want:
+                    got = o.split(" ")
+                    if got[:1] == want.split(" ")[:1]:
+                        o = canon_within_steps(got, loose)
+                        want = canon_within_steps(want.split(" "), loose)
             if o != want:
                 bad.append(f"tframe: agent-type frame of C{T}: got `{o}` want `{want}`")
         elif ws[0] == "tab":
@@ -828,8 +948,11 @@ def build_parameters(params):
             elif all(isinstance(v, str | tuple | int) for v in vals) and len(set(vals)) == len(vals):
                 d[f"p{p}"] = {v: 0 for v in vals}  # a dict is iterated over its keys
             else:
-                # (one-shot iterators are outside C13's quantifier: batch_run re-reads the parameters per iteration)
                 raise BadOp(kind)
+        elif kind == "once":
+            # a one-shot iterator (outside C13's quantifier: batch_run re-reads `parameters` once per iteration, so
+            # it is spent after iteration 0 — modelled, see C13_oneshot_parameters)
+            d[f"p{p}"] = iter(vals) if p % 2 == 0 else (v for v in vals)
         else:
             raise BadOp(kind)
     return d
@@ -898,7 +1021,7 @@ def run_batch(sc):
                 if len(ws) < 3:
                     raise BadOp(ws)
                 p, kind, toks = to_nat(ws[1]), ws[2], ws[3:]
-                if any(q == p for q, _, _ in spec.params) or kind not in ("str", "scalar", "sized", "iter"):
+                if any(q == p for q, _, _ in spec.params) or kind not in ("str", "scalar", "sized", "iter", "once"):
                     raise BadOp(ws)
                 if kind in ("str", "scalar") and len(toks) != 1:
                     raise BadOp(ws)
@@ -913,7 +1036,8 @@ def run_batch(sc):
                     obs.append("err Value")
                     continue
                 obs.append(" ".join(["ok"] + [fmt_kw_tokens([(n[1:], encode_val(v)) for n, v in kw.items()]) for kw in kws]))
-            elif k in ("run", "runp") and len(ws) == (4 if k == "run" else 5):
+            elif k in ("run", "runp") and len(ws) - (ws[-1] == "prog") == (4 if k == "run" else 5):
+                prog = ws[-1] == "prog"
                 it, ms, per = to_nat(ws[1]), to_nat(ws[2]), to_int(ws[3])
                 nproc = to_nat(ws[4]) if k == "runp" else 1
                 if k == "runp" and nproc < 1:
@@ -921,7 +1045,7 @@ def run_batch(sc):
                 text = "\n".join(spec_lines)
                 cls = functools.partial(ScriptModel, _spec=text)
                 ScriptModel.instances.clear()
-                rec = {"iterations": it, "max_steps": ms, "period": per, "nproc": nproc, "spec_text": text,
+                rec = {"iterations": it, "max_steps": ms, "period": per, "nproc": nproc, "spec_text": text, "prog": prog,
                        "params": list(spec.params), "n_m": len(spec.mreps), "n_a": len(spec.areps)}
                 runs.append(rec)
                 import signal
@@ -932,8 +1056,12 @@ def run_batch(sc):
                     left = max(left, 180)
                 signal.alarm(left)
                 try:
-                    rows = batch_run(cls, build_parameters(spec.params), number_processes=nproc, iterations=it,
-                                     data_collection_period=per, max_steps=ms, display_progress=False)
+                    import contextlib
+                    import io
+
+                    with contextlib.redirect_stderr(io.StringIO()):  # the tqdm bar
+                        rows = batch_run(cls, build_parameters(spec.params), number_processes=nproc, iterations=it,
+                                         data_collection_period=per, max_steps=ms, display_progress=prog)
                 except ValueError:
                     rec["result"] = "err Value"
                     obs.append("err Value")
@@ -963,7 +1091,7 @@ def run_batch(sc):
 
 
 OP_SHAPES = {"create": None, "remove": 2, "step": 1, "mset": 3, "mapp": 3, "mdel": 2, "aset": 4, "adel": 3,
-             "collect": 1, "row": None, "stop": 2}
+             "collect": 1, "row": None, "stop": 2, "reorder": None}
 
 
 def check_op_shape(ws):
@@ -988,6 +1116,11 @@ def check_op_shape(ws):
             parse_pair(w)
     elif k in ("remove", "mdel", "stop"):
         to_nat(ws[1])
+    elif k == "reorder":
+        if not ((len(ws) == 2 and ws[1] in ("rev", "rot", "ida", "idd")) or (len(ws) == 3 and ws[1] in ("ata", "atd"))):
+            raise BadOp(ws)
+        if len(ws) == 3:
+            to_nat(ws[2])
     elif k == "mset":
         to_nat(ws[1])
         try:
@@ -1036,6 +1169,17 @@ def oracle_batch(sc, obs):
         if "rows" not in rec:
             continue  # batch_run raised (empty sized parameter / period 0): nothing to judge
         rows, it, ms, per = rec["rows"], rec["iterations"], rec["max_steps"], rec["period"]
+        if any(kind == "once" for _, kind, _ in rec["params"]):
+            # a one-shot iterator is outside the quantifier from the second iteration on (it is spent): the design is
+            # judged for iteration 0, which the property still covers
+            it = min(it, 1)
+        # results.extend(data): the rows of one run are contiguous (and RunIds ascend when run serially)
+        ids = [r.get("RunId") for r in rows]
+        blocks = [x for i, x in enumerate(ids) if i == 0 or ids[i - 1] != x]
+        if len(blocks) != len(set(blocks)):
+            bad.append("chunks: the rows of one run are not contiguous in the result")
+        if rec["nproc"] == 1 and blocks != sorted(blocks):
+            bad.append("chunks: serial run, but the RunIds do not ascend")
         names = [f"p{p}" for p, _, _ in rec["params"]]
         # the design: cartesian product of the value lists, times iterations
         combos = [[]]
@@ -1072,11 +1216,14 @@ def oracle_batch(sc, obs):
                     else:
                         expected_total.append((*base, None, None))
         ScriptModel.instances.clear()
+        # a reporter raised inside a collect the scripted model swallowed: the rows are outside the property (tied to the
+        # model only); the construction / stepping clauses and the process-count clause are still judged
+        raising = any(silent(c) for h in hand.values() for c in h.world.collects)
         # every combination x iteration exactly once (a run that never collected has no row to show)
         shown = [freeze((i, dict(c))) for i in range(it) for c in combos if expected_rows(hand[freeze(dict(c))], per)]
-        if sorted(got) != sorted(shown):
+        if sorted(got) != sorted(shown) and not raising:
             bad.append(f"design: runs executed {sorted(got)[:4]}… are not the design {design[:4]}… once each")
-        if len(by_run) != produced_runs:
+        if len(by_run) != produced_runs and not raising:
             bad.append(f"runid: {len(by_run)} distinct RunIds for {produced_runs} runs")
         if rec["nproc"] == 1 and "constructed" in rec:
             if sorted(freeze(k) for k in rec["constructed"]) != sorted(freeze(dict(c)) for _ in range(it) for c in combos):
@@ -1101,7 +1248,7 @@ def oracle_batch(sc, obs):
             else:
                 got_rows.append((r.get("iteration"), freeze(kw), r.get("Step"), mv, None, None))
         # alignment: Step label, model values and agent values of a row come from one collection of that run
-        for g in got_rows:
+        for g in ([] if raising else got_rows):
             h = hand[g[1]] if g[1] in hand else None
             if h is None:
                 continue
@@ -1120,7 +1267,7 @@ def oracle_batch(sc, obs):
                 bad.append(f"aligned: row Step={g[2]} model=[{g[3]}] agent={g[4]}:{g[5]} matches no single collection of its run")
                 break
         # the last collected state is reported
-        for key, h in hand.items():
+        for key, h in ({} if raising else hand).items():
             cs = [c for c in h.world.collects if c["outcome"] in ("ok", "err Value")]
             if not cs:
                 continue
@@ -1128,7 +1275,7 @@ def oracle_batch(sc, obs):
             if not any(g[1] == key and g[2] == last["step"] and g[3] == fmt_vals(last["m"]) for g in got_rows):
                 bad.append(f"last: the last collection (step {last['step']}, model [{fmt_vals(last['m'])}]) of a run is not among its rows")
                 break
-        if sorted(got_rows, key=repr) != sorted(expected_total, key=repr):
+        if not raising and sorted(got_rows, key=repr) != sorted(expected_total, key=repr):
             bad.append(f"rows: {len(got_rows)} rows returned differ from the {len(expected_total)} rows of the same models stepped by hand")
         # same multiset for every number_processes
         key = (rec["spec_text"], repr(rec["params"]), it, ms, per)
@@ -1179,7 +1326,12 @@ INTS = ["0", "1", "2", "3", "-1", "5", "7"]
 LISTS = ["L", "L1", "L1,2", "L0,0,3"]
 
 
-def gen_fn(R, kind):
+def gen_fn(R, kind, raising=False):
+    if raising and R.random() < 0.5:
+        # reads the attribute directly: raises AttributeError while it is missing
+        if kind in ("F", "G"):
+            return f"{'req' if kind == 'F' else 'lreq'} {R.randrange(4)}"
+        return f"{'req' if kind == 'A' else 'lreq'} {R.randrange(3)}"
     if kind == "F":
         return R.choice(["count", "steps", f"sum {R.randrange(3)}", f"get {R.randrange(4)}"])
     if kind == "G":
@@ -1189,33 +1341,55 @@ def gen_fn(R, kind):
     return f"lin {R.randrange(3)}"
 
 
-def gen_rep(R, level):
+def gen_rep(R, level, raising=False):
     k = R.random()
     if k < 0.3:
         return f"attr {R.randrange(4 if level == 'm' else 3)}"
     if k < 0.55:
-        return "fn " + gen_fn(R, "F" if level == "m" else "A")
+        # model level: a plain function / lambda (validated by a trial call) or a functools.partial (not validated)
+        form = "part" if level == "m" and R.random() < 0.35 else "fn"
+        return f"{form} " + gen_fn(R, "F" if level == "m" else "A", raising)
     if k < 0.8:
-        return "meth " + gen_fn(R, "F" if level == "m" else "A")
-    return f"args {R.choice([1, 2, -1, 3])} {R.choice([0, 1, 5])} " + gen_fn(R, "G" if level == "m" else "AG")
+        return "meth " + gen_fn(R, "F" if level == "m" else "A", raising)
+    return f"args {R.choice([1, 2, -1, 3])} {R.choice([0, 1, 5])} " + gen_fn(R, "G" if level == "m" else "AG", raising)
 
 
-def gen_header(R, batch=False, tables_p=0.6):
-    """class hierarchy, reporter dictionaries mixing the four forms at the three levels, tables"""
+def mro_ok(parents):
+    """Python accepts the hierarchy (C3 linearisation exists)"""
+    cls = []
+    try:
+        for i, w in enumerate(parents):
+            cls.append(type(f"K{i}", (object,) if w == "-" else tuple(cls[int(x)] for x in w.split("+")), {}))
+    except TypeError:
+        return False
+    return True
+
+
+def gen_header(R, batch=False, tables_p=0.6, raising_p=0.12):
+    """class hierarchy, reporter dictionaries mixing the four forms at the three levels, tables; `raising`: some
+    reporters read their attribute directly and raise while it is missing (outside C12's quantifier, tied to the model)"""
+    raising = R.random() < raising_p
     ncls = R.choice([1, 2, 2, 3, 3, 4])
     parents = []
     for i in range(ncls):
         parents.append("-" if i == 0 or R.random() < 0.45 else str(R.randrange(i)))
+    if ncls >= 3 and R.random() < 0.25:
+        # multiple inheritance: one class gets two bases (kept only if Python finds a consistent MRO)
+        i = R.randrange(2, ncls)
+        q, p2 = sorted(R.sample(range(i), 2), reverse=True)
+        trial = parents[:i] + [f"{q}+{p2}" if R.random() < 0.7 else f"{p2}+{q}"] + parents[i + 1:]
+        if mro_ok(trial):
+            parents = trial
     lines = ["classes " + " ".join(parents)]
     for _ in range(R.choice([0, 1, 1, 2, 2, 3, 4])):
-        lines.append("mrep " + gen_rep(R, "m"))
+        lines.append("mrep " + gen_rep(R, "m", raising))
     for _ in range(R.choice([0, 1, 1, 2, 3])):
-        lines.append("arep " + gen_rep(R, "a"))
+        lines.append("arep " + gen_rep(R, "a", raising))
     if not batch:
         keys = list(range(ncls)) + ([ncls + 3] if R.random() < 0.06 else [])
         R.shuffle(keys)
         for T in keys[: R.choice([0, 0, 1, 1, 2, 3])]:
-            reps = [gen_rep(R, "a") for _ in range(R.choice([1, 1, 2]))]
+            reps = [gen_rep(R, "a", raising) for _ in range(R.choice([1, 1, 2]))]
             lines.append(f"trep {T} " + " ; ".join(reps))
     ntab = 0
     if R.random() < tables_p:
@@ -1224,7 +1398,7 @@ def gen_header(R, batch=False, tables_p=0.6):
             cols = R.sample(range(4), R.choice([0, 1, 2, 2, 3]))
             lines.append(f"table {t} " + " ".join(map(str, cols)))
     R.shuffle(lines)  # definition order across kinds is free; within a kind it fixes the names
-    return lines, ncls, ntab
+    return lines, ncls, ntab, raising
 
 
 def gen_row(R, ntab, reject_bias=0.0):
@@ -1239,20 +1413,32 @@ def gen_row(R, ntab, reject_bias=0.0):
 
 
 def gen_collect_scenario(R, reject_bias=0.0, n_ops=None):
-    head, ncls, ntab = gen_header(R, tables_p=0.6 + 0.4 * reject_bias)
+    head, ncls, ntab, raising = gen_header(R, tables_p=0.6 + 0.4 * reject_bias)
     lines = ["scenario collect", *head, "start"]
     n_agents = 0
     removed = set()
     list_attrs = set()
+    if raising:
+        # attributes the raising model reporters need: mostly present at first, so that a later `mdel` makes them raise
+        need = [int(l.split()[-1]) for l in head if l.startswith("mrep") and l.split()[-2] in ("req", "lreq")]
+        for a in sorted(set(need)):
+            if R.random() < 0.65:
+                lines.append(f"mset {a} {R.choice(INTS)}")
     # model attributes that are mutable objects and keep changing: preferably the ones the reporters read
     read = [int(l.split()[-1]) for l in head if l.startswith("mrep") and l.split()[1] in ("attr", "fn", "meth") and l.split()[-2] in ("attr", "get")]
     for a in sorted(set(read))[: R.choice([0, 1, 2, 2])]:
         lines.append(f"mset {a} {R.choice(LISTS)}")
         list_attrs.add(a)
+    # in 30% of the scenarios model.agents is reordered in place between collects (shuffle / sort)
+    reorders = R.random() < 0.3
     for _ in range(n_ops or R.randrange(6, 30)):
+        if reorders and R.random() < 0.14:
+            lines.append(gen_reorder(R))
+            continue
         k = R.random()
         if k < 0.16:
-            attrs = " ".join(f"{a}={R.choice(VALS)}" for a in R.sample(range(3), R.choice([0, 1, 2, 3])))
+            n_attrs = 3 if raising and R.random() < 0.7 else R.choice([0, 1, 2, 3])
+            attrs = " ".join(f"{a}={R.choice(VALS)}" for a in R.sample(range(3), n_attrs))
             lines.append(f"create {R.randrange(ncls)} {attrs}".rstrip())
             n_agents += 1
         elif k < 0.22 and n_agents:
@@ -1292,6 +1478,11 @@ def gen_collect_scenario(R, reject_bias=0.0, n_ops=None):
     return core.Scenario(lines, {})
 
 
+def gen_reorder(R):
+    k = R.choice(["rev", "rev", "rot", "rot", "ida", "idd", "ata", "atd"])
+    return f"reorder {k}" + (f" {R.randrange(3)}" if k in ("ata", "atd") else "")
+
+
 PARAM_TOKS = ["i0", "i1", "i2", "i3", "i5", "sab", "s", "sx", "dk", "dq", "t1_2", "t", "f5", "n", "l1_2", "i-1"]
 
 
@@ -1305,6 +1496,9 @@ def gen_param(R, p):
         n = R.choice([0, 1, 1, 2, 2, 3]) if R.random() < 0.12 else R.choice([1, 1, 2, 2, 3])
         return f"param {p} sized " + " ".join(R.choice(PARAM_TOKS) for _ in range(n))
     kind = R.random()
+    if k > 0.94:
+        # a generator / iter(...): spent after the first iteration
+        return f"param {p} once " + " ".join(R.choice(PARAM_TOKS) for _ in range(R.choice([0, 1, 2, 2, 3])))
     if kind < 0.5:
         a, n = R.choice([0, 1, 2]), R.choice([0, 1, 2, 3]) if R.random() < 0.15 else R.choice([1, 2, 3])
         toks = [f"i{a + j}" for j in range(n)]
@@ -1316,7 +1510,7 @@ def gen_param(R, p):
 
 
 def gen_batch_scenario(R, nprocs=(1,), small=False):
-    head, ncls, ntab = gen_header(R, batch=True, tables_p=0.2)
+    head, ncls, ntab, _raising = gen_header(R, batch=True, tables_p=0.2, raising_p=0.05)
     if not any(l.startswith("mrep") for l in head) and R.random() < 0.8:
         head.append("mrep fn steps")
     nparams = R.choice([0, 1, 1, 2, 2, 3]) if not small else R.choice([0, 1, 2])
@@ -1367,6 +1561,9 @@ def gen_batch_scenario(R, nprocs=(1,), small=False):
         body.insert(R.randrange(len(body) + 1), f"stop {arg(R.choice([0, 1, 2, 3, 4]))}")
     if collect_step and not pre:
         body.append("collect")
+    if R.random() < 0.12:
+        # model.agents reordered in place while stepping (rows of a collection follow the order at that collect)
+        body.insert(R.randrange(len(body) + 1), gen_reorder(R))
     if R.random() < 0.06:
         body.append("collect")  # twice per step: outside C13's quantifier, still tied to the model
     lines = ["scenario batch", *head, "init " + " ; ".join(init), "body " + " ; ".join(body)]
@@ -1375,8 +1572,11 @@ def gen_batch_scenario(R, nprocs=(1,), small=False):
     its = R.choice([1, 1, 2, 3]) if not small else R.choice([1, 2])
     ms = R.choice([0, 1, 2, 3, 4, 5, 6])
     per = R.choice([-1, -1, 1, 1, 2, 3, 0 if R.random() < 0.1 else 2])
+    if R.random() < 0.1:
+        per = R.choice([7, 50])  # larger than any run: first and last collection
+    prog = " prog" if R.random() < 0.15 else ""
     for np_ in nprocs:
-        lines.append(f"run {its} {ms} {per}" if np_ == 1 else f"runp {its} {ms} {per} {np_}")
+        lines.append((f"run {its} {ms} {per}" if np_ == 1 else f"runp {its} {ms} {per} {np_}") + prog)
     if R.random() < 0.3 and nprocs == (1,):
-        lines.append(f"run {R.choice([1, 2])} {R.choice([0, 2, 4])} {R.choice([-1, 1, 2])}")
+        lines.append(f"run {R.choice([1, 2])} {R.choice([0, 2, 4])} {R.choice([-1, 1, 2, 9])}")
     return core.Scenario(lines, {})
